@@ -393,6 +393,7 @@ func (s *sim) checkResult() {
 	}
 	s.compareState(st, cs, H)
 	s.compareCommit(commit, H)
+	s.checkBootstrap(st, H)
 }
 
 func (s *sim) compareState(st, cs sm.State, H int64) {
@@ -414,6 +415,16 @@ func (s *sim) compareState(st, cs sm.State, H int64) {
 		e.Fail("C14", "state-last-results-hash", "LastResultsHash %x != canonical %x", st.LastResultsHash, cs.LastResultsHash)
 	case st.Version.Consensus != s.chain.Blocks[H+1].Header.Version:
 		e.Fail("C14", "state-version", "consensus version %v != %v", st.Version.Consensus, s.chain.Blocks[H+1].Header.Version)
+	}
+	// Bookkeeping heights. The provider cannot know when the sets / params last changed before
+	// the snapshot; what it claims is safe iff it is not earlier than the true change height (the
+	// store resolves later heights through this pointer) and not later than the last height for
+	// which Bootstrap stores the value in full (H+2 for validators, H+1 for params).
+	if st.LastHeightValidatorsChanged < cs.LastHeightValidatorsChanged || st.LastHeightValidatorsChanged > H+2 {
+		e.Fail("C14", "state-last-height-validators-changed", "restored state (height %d) says the validator set last changed at %d; on the chain it last changed at %d; admissible [%d,%d]", H, st.LastHeightValidatorsChanged, cs.LastHeightValidatorsChanged, cs.LastHeightValidatorsChanged, H+2)
+	}
+	if st.LastHeightConsensusParamsChanged < cs.LastHeightConsensusParamsChanged || st.LastHeightConsensusParamsChanged > H+1 {
+		e.Fail("C14", "state-last-height-consensus-params-changed", "restored state (height %d) says the consensus params last changed at %d; on the chain they last changed at %d; admissible [%d,%d]", H, st.LastHeightConsensusParamsChanged, cs.LastHeightConsensusParamsChanged, cs.LastHeightConsensusParamsChanged, H+1)
 	}
 	cmpVals := func(name string, got, want *types.ValidatorSet) {
 		if got == nil || want == nil || !bytes.Equal(got.Hash(), want.Hash()) {
